@@ -36,9 +36,9 @@ NAMES = {
     "child.children.value": ("child.children.items.value", ("child", "children"), True),
 }
 MUTS = {
-    "child": ["child=", "child=None", "grandchild=", "child_children_append"],
-    "children": ["append", "insert", "del", "setitem", "reverse", "sort", "clear", "assign_list"],
-    "mapping": ["map_set", "map_del", "map_update_mixed", "map_assign"],
+    "child": ["child=", "child=None", "grandchild=", "child_children_append", "bad_registration"],
+    "children": ["append", "insert", "del", "setitem", "reverse", "sort", "clear", "assign_list", "bad_registration"],
+    "mapping": ["map_set", "map_del", "map_update_mixed", "map_assign", "bad_registration"],
 }
 
 
@@ -92,7 +92,9 @@ def mutate(ex, step, root, mut, fresh):
         raise AssertionError(mut)
 
 
-def harness_factory(lname, k, nargs):
+def harness_factory(lname, k, nargs, twins=False):
+    """twins: every object the mutations put into the graph compares EQUAL to every other one (value-based __eq__) while
+    being a distinct object - reachability is a matter of identity"""
     oexpr, steps, first_notifies = NAMES[lname]
     muts = MUTS[steps[0]]
 
@@ -112,7 +114,7 @@ def harness_factory(lname, k, nargs):
 
         def fresh():
             counter[0] += 1
-            return N(name="f%02d" % counter[0])
+            return N(name="f%02d" % counter[0], eqkey="twin") if twins else N(name="f%02d" % counter[0])
 
         root = N(name="root")
         start_none = ex.flag("child_starts_none")
@@ -141,7 +143,21 @@ def harness_factory(lname, k, nargs):
             modern.clear()
             old_first = getattr(root, steps[0])
             nerr = len(errors)
-            mutate(ex, step, root, mut, fresh)
+            if mut == "bad_registration":
+                # another registration under the SAME extended name fails: the one made earlier is none of its business
+                bogus = lambda: None
+                try:
+                    root.on_trait_change(bogus, lname, dispatch="no-such-dispatch")
+                except Exception:
+                    pass
+                else:
+                    # nothing along the name to hook yet, so nothing looked at the dispatch: take it back
+                    try:
+                        root.on_trait_change(bogus, lname, remove=True)
+                    except Exception:
+                        pass
+            else:
+                mutate(ex, step, root, mut, fresh)
             trace.append(mut)
             new_first = getattr(root, steps[0])
             # intermediate link changed (first link): '.' reports, ':' does not
@@ -151,7 +167,9 @@ def harness_factory(lname, k, nargs):
                 changed = new_first is not old_first
                 if not first_notifies:
                     ex.check(legacy == [], "a change of a ':' link is not reported to the legacy handler")
-                elif changed and (nargs in (0, 3, 4) or old_first is None):
+                elif changed and (nargs in (0, 3, 4) or old_first is None) and not (twins and old_first is not None and new_first is not None
+                                                                                   and bool(old_first == new_first)):
+                    # (an equal value is no change for a USER handler under the default comparison mode; the hooks move all the same)
                     ex.check(len(legacy) >= 1, "a change of a '.' link is reported to the legacy handler")
                 if first_notifies and nargs in (1, 2) and old_first is not None:
                     # documented legacy restriction: 1- and 2-argument handlers are 'incompatible with a change to an
@@ -192,4 +210,10 @@ def obligations(tier, build):
                                   bounds={"extended name": lname, "observe expression": NAMES[lname][0], "history length": K,
                                           "handler signature (arguments)": nargs, "list positions": "unbounded Int"},
                                   leverage="list indices; otherwise choice feasibility only", max_paths=100000, path_wall_s=60))
+            if nargs == 4:
+                obs.append(Obligation("agree-twins/%s/args=%d/k=%d" % (lname, nargs, K), harness_factory(lname, K, nargs, twins=True),
+                                      env=G.env, stubs=STUBS,
+                                      bounds={"extended name": lname, "observe expression": NAMES[lname][0], "history length": K,
+                                              "objects": "pairwise equal (value-based __eq__), distinct", "list positions": "unbounded Int"},
+                                      leverage="list indices; otherwise choice feasibility only", max_paths=100000, path_wall_s=60))
     return obs
